@@ -28,7 +28,13 @@ impl Typedef {
                 // Typedefs to opaque types include a variable array identifier so the
                 // caller knows to read the length prefix bytes. This is already handled
                 // by the opaque reader however, so map this to a "no array" wrapper.
-                Node::ArrayVariable(_) if target.is_opaque() => ArrayType::None(alias),
+                //
+                // A declared maximum length must be kept though, so it can be
+                // enforced when decoding.
+                Node::ArrayVariable(s) if target.is_opaque() => match s.trim() {
+                    "" => ArrayType::None(alias),
+                    s => ArrayType::VariableSize(alias, Some(ArraySize::from(s))),
+                },
 
                 Node::ArrayVariable(s) => ArrayType::VariableSize(
                     alias,
